@@ -483,7 +483,7 @@ def run(ctx):
         for k in (1, 2, 3):
             recs += [r for r in generate(ctx.tier, ctx.seed + 1000 * k) if r['driver'] != 'refdom']
     scs = all_scenarios(recs)
-    ctx.validate('TraceC10', scs, jvms=8 if ctx.tier == 'quick' else 16)
+    ctx.validate('TraceC10', scs, jvms=8)
     import json
     ctx.notes['distinct_nontrivial'] = len({json.dumps(r, sort_keys=True) for r in recs})
     ctx.notes['by_driver'] = {d: sum(1 for r in recs if r['driver'] == d) for d in ('geom', 'pair', 'refdom')}
